@@ -36,7 +36,8 @@ impl Shape {
     }
 }
 
-pub struct ShapeBucket {
+#[derive(Clone, Debug)]
+pub struct SiteShape {
     pub site: String,
     pub shape: Shape,
     /// first-chunk upload time of the newest directory (ms); older ones are earlier.
@@ -45,12 +46,9 @@ pub struct ShapeBucket {
     pub gap_s: i64,
     pub jitter_seed: u64,
     pub fraction: bool,
-    pub fail_rate: (u64, u64),
-    pub latency_max_ms: u64,
-    pub faults_left: u64,
 }
 
-impl ShapeBucket {
+impl SiteShape {
     pub fn first_chunk_ms(&self, age: usize) -> i64 {
         // strictly increasing along the rotation, whole seconds (S3's resolution)
         self.newest_ms - (age as i64) * self.gap_s * 1000
@@ -58,6 +56,15 @@ impl ShapeBucket {
     fn chunk_count(&self, v: usize) -> usize {
         1 + (crate::rng::mix(&[self.jitter_seed, 77, v as u64]) % 55) as usize
     }
+}
+
+pub struct ShapeBucket {
+    pub sites: Vec<SiteShape>,
+    /// request failure rate (num, den) and HTTP error status rate per listing
+    pub fail_rate: (u64, u64),
+    pub status_rate: (u64, u64),
+    pub latency_max_ms: u64,
+    pub faults_left: u64,
 }
 
 pub fn chunk_name(volume_start_ms: i64, seq: usize) -> String {
@@ -91,43 +98,47 @@ impl Backend for ShapeBucket {
             core.ctx.ev("fault", &[req.seq], || "request could not be sent".into());
             return Reply::SendError;
         }
+        if self.status_rate.0 > 0 && self.faults_left > 0 && core.tape.chance(self.status_rate.0, self.status_rate.1) {
+            self.faults_left -= 1;
+            let status = [404u16, 500, 503, 403][core.tape.draw(4) as usize];
+            core.ctx.count("fault.error_status");
+            core.ctx.ev("fault", &[req.seq, status as u64], || format!("HTTP {} on {}", status, req.url));
+            return s3sim::status_reply(status, None);
+        }
         match &req.kind {
             ReqKind::List { prefix, max_keys } if req.host == s3sim::REALTIME_HOST => {
                 let max = max_keys.unwrap_or(1000);
                 let mut objects = Vec::new();
                 let mut truncated = false;
-                // S3 matches plain string prefixes over keys in byte order
-                'dirs: for v in s3sim::matching_dirs(&self.site, prefix) {
-                    if let Some(age) = self.shape.age(v) {
-                        let start = self.first_chunk_ms(age);
-                        let k = self.chunk_count(v);
-                        for i in 1..=k {
-                            let key = format!("{}/{}/{}", self.site, v, chunk_name(start, i));
-                            if !key.starts_with(prefix.as_str()) {
-                                continue;
+                // S3 matches plain string prefixes over keys in byte order; sites sort by name
+                let mut sites: Vec<&SiteShape> = self.sites.iter().collect();
+                sites.sort_by(|a, b| a.site.cmp(&b.site));
+                'all: for ss in sites {
+                    for v in s3sim::matching_dirs(&ss.site, prefix) {
+                        if let Some(age) = ss.shape.age(v) {
+                            let start = ss.first_chunk_ms(age);
+                            let k = ss.chunk_count(v);
+                            for i in 1..=k {
+                                let key = format!("{}/{}/{}", ss.site, v, chunk_name(start, i));
+                                if !key.starts_with(prefix.as_str()) {
+                                    continue;
+                                }
+                                if objects.len() == max {
+                                    truncated = true;
+                                    break 'all;
+                                }
+                                objects.push(ListedObject {
+                                    key,
+                                    last_modified: s3sim::rfc3339_ms(start + (i as i64 - 1) * 5000, ss.fraction),
+                                    size: (10_000 + i * 13).to_string(),
+                                });
                             }
-                            if objects.len() == max {
-                                truncated = true;
-                                break 'dirs;
-                            }
-                            objects.push(ListedObject {
-                                key,
-                                last_modified: s3sim::rfc3339_ms(start + (i as i64 - 1) * 5000, self.fraction),
-                                size: (10_000 + i * 13).to_string(),
-                            });
                         }
                     }
                 }
                 Reply::Text {
                     status: 200,
-                    body: s3sim::list_xml(
-                        "unidata-nexrad-level2-chunks",
-                        prefix,
-                        max,
-                        &objects,
-                        truncated,
-                        false,
-                    ),
+                    body: s3sim::list_xml("unidata-nexrad-level2-chunks", prefix, max, &objects, truncated, false),
                 }
             }
             ReqKind::Get { key } => s3sim::status_reply(404, Some(key)),
@@ -178,17 +189,19 @@ impl Check for C15 {
             Tier::Quick => vec![
                 Section { name: "all-shapes-sizes-1..=24", runs: small_total(24) },
                 Section { name: "production-size-seeded", runs: 40_000 },
-                Section { name: "production-size-faults", runs: 3_000 },
+                Section { name: "production-size-faults", runs: 6_000 },
+                Section { name: "concurrent-discoveries", runs: 3_000 },
             ],
             Tier::Thorough => vec![
                 Section { name: "all-shapes-sizes-1..=64", runs: small_total(64) },
                 Section { name: "production-size-all-shapes", runs: 999 * 1000 },
-                Section { name: "production-size-faults", runs: 60_000 },
+                Section { name: "production-size-faults", runs: 120_000 },
+                Section { name: "concurrent-discoveries", runs: 60_000 },
             ],
         }
     }
     fn rule(&self) -> &'static str {
-        "a case is a bucket shape (directory count N, newest position p, populated count c, contiguous run ending at p, strictly increasing first-chunk times along the rotation, 1..55 chunks per directory) served by the simulated S3 endpoint to the real get_latest_volume (N=999) or to the guarded search wrapper with the same listing closure (N<=64); section 1 enumerates (thorough) or samples with bias to p in {1,2,998,999} and c in {0,1,2,998,999} (quick); the fault section adds request failures and latency. Non-trivial = at least one populated directory; distinct = distinct (N,p,c,fault-pattern) hash"
+        "a case is a bucket shape (directory count N, newest position p, populated count c, contiguous run ending at p, strictly increasing first-chunk times along the rotation, 1..55 chunks per directory) served by the simulated S3 endpoint to the real get_latest_volume (N=999) or to the guarded search wrapper with the same listing closure (N<=64); section 1 enumerates (thorough) or samples with bias to p in {1,2,998,999} and c in {0,1,2,998,999} (quick); the fault section adds request failures, HTTP 404/500/503/403 on listings and latency (result must be the right volume or an error); the last section runs two or three discoveries for different sites concurrently on one runtime (each must report its own requests); the client clock is offset by up to +-300 s in a random half of the runs (discovery must not depend on it). Non-trivial = at least one populated directory; distinct = distinct (N,p,c,fault-pattern) hash"
     }
     fn assumptions(&self) -> Vec<&'static str> {
         vec![
@@ -215,159 +228,207 @@ impl Check for C15 {
     }
 
     fn run(&self, p: &Params, tape: &mut Tape, ctx: &mut Ctx) {
-        // ---- the case
-        let (shape, faults) = match (p.tier, p.section) {
-            (Tier::Quick, 0) => (small_shape(p.index, 24), false),
-            (Tier::Thorough, 0) => (small_shape(p.index, 64), false),
-            (Tier::Thorough, 1) => (
-                Shape { n: 999, p: (p.index / 1000) as usize + 1, c: (p.index % 1000) as usize },
-                false,
-            ),
-            (_, s) => {
-                // seeded production-size shape, biased to the edges
-                let pp = match tape.weighted(&[4, 1, 1, 1, 1, 1]) {
-                    0 => tape.range(1, 999) as usize,
-                    1 => 1,
-                    2 => 2,
-                    3 => 998,
-                    4 => 999,
-                    _ => tape.range(990, 999) as usize,
-                };
-                let cc = match tape.weighted(&[4, 1, 1, 1, 1, 1, 1]) {
-                    0 => tape.range(0, 999) as usize,
-                    1 => 0,
-                    2 => 1,
-                    3 => 2,
-                    4 => 998,
-                    5 => 999,
-                    _ => tape.range(1, 12) as usize,
-                };
-                (Shape { n: 999, p: pp, c: cc }, s == 2)
-            }
+        // ---- the case(s): one discovery, or several concurrent ones (section 3)
+        let concurrent = p.section == 3;
+        let faults = p.section == 2;
+        let mut draw_production = |tape: &mut Tape| -> Shape {
+            // seeded production-size shape, biased to the edges
+            let pp = match tape.weighted(&[4, 1, 1, 1, 1, 1]) {
+                0 => tape.range(1, 999) as usize,
+                1 => 1,
+                2 => 2,
+                3 => 998,
+                4 => 999,
+                _ => tape.range(990, 999) as usize,
+            };
+            let cc = match tape.weighted(&[4, 1, 1, 1, 1, 1, 1]) {
+                0 => tape.range(0, 999) as usize,
+                1 => 0,
+                2 => 1,
+                3 => 2,
+                4 => 998,
+                5 => 999,
+                _ => tape.range(1, 12) as usize,
+            };
+            Shape { n: 999, p: pp, c: cc }
         };
-        let site = SITES[tape.draw(SITES.len() as u64) as usize].to_string();
-        let gap_s = 1 + tape.draw(600) as i64;
-        let jitter_seed = tape.seed();
-        let fraction = tape.draw(2) == 1;
-        let (fail_rate, latency_max_ms, budget) = if faults {
-            ((1 + tape.draw(2), 150), tape.draw(3) * 700, 1 + tape.draw(3))
+        let first_shape = match (p.tier, p.section) {
+            (Tier::Quick, 0) => small_shape(p.index, 24),
+            (Tier::Thorough, 0) => small_shape(p.index, 64),
+            (Tier::Thorough, 1) => Shape { n: 999, p: (p.index / 1000) as usize + 1, c: (p.index % 1000) as usize },
+            _ => draw_production(tape),
+        };
+        let nsites = if concurrent { 2 + tape.draw(2) as usize } else { 1 };
+        let first_site = tape.draw(SITES.len() as u64) as usize;
+        let mut sites: Vec<SiteShape> = Vec::new();
+        for k in 0..nsites {
+            let shape = if k == 0 { first_shape } else { draw_production(tape) };
+            sites.push(SiteShape {
+                site: SITES[(first_site + k) % SITES.len()].to_string(),
+                shape,
+                // the newest upload is 1..120 s old
+                newest_ms: s3sim::EPOCH_MS - 1000 * (1 + tape.draw(120) as i64),
+                gap_s: 1 + tape.draw(600) as i64,
+                jitter_seed: tape.seed(),
+                fraction: tape.draw(2) == 1,
+            });
+        }
+        let (fail_rate, status_rate, mut latency_max_ms, budget) = if faults {
+            ((tape.draw(3), 150), (tape.draw(3), 150), tape.draw(3) * 700, 1 + tape.draw(3))
         } else {
-            ((0, 1), 0, 0)
+            ((0, 1), (0, 1), 0, 0)
         };
-        let expected = if shape.c > 0 { Some(shape.p) } else { None };
+        if concurrent {
+            // latency makes the discoveries interleave at their await points
+            latency_max_ms = 1 + tape.draw(300);
+        }
+        // the client's clock may be off in either direction: discovery must not depend on it
+        let skew_ms: i64 = match tape.weighted(&[2, 1, 1]) {
+            0 => 0,
+            1 => -(tape.draw(300_000) as i64),
+            _ => tape.draw(300_000) as i64,
+        };
+        if skew_ms < 0 {
+            ctx.count("client_clock_behind");
+        }
 
-        let site2 = site.clone();
-        let (result, listed) = s3sim::with_world(
+        let sites2 = sites.clone();
+        let small_n = first_shape.n;
+        let results: Vec<(Result<(Option<usize>, usize), String>, usize)> = s3sim::with_world(
             tape,
             ctx,
-            |_core| ShapeBucket {
-                site: site2,
-                shape,
-                newest_ms: s3sim::EPOCH_MS - 60_000,
-                gap_s,
-                jitter_seed,
-                fraction,
-                fail_rate,
-                latency_max_ms,
-                faults_left: budget,
+            |core| {
+                core.skew_before_ms = skew_ms;
+                core.skew_after_ms = skew_ms;
+                ShapeBucket { sites: sites2, fail_rate, status_rate, latency_max_ms, faults_left: budget }
             },
             |world, rt| {
-                let r: Result<(Option<usize>, usize), String> = rt.block_on(async {
-                    if shape.n == 999 {
-                        match get_latest_volume(&site).await {
-                            Ok(r) => Ok((r.volume.map(|v| v.as_number()), r.calls)),
-                            Err(e) => Err(format!("{:?}", e)),
-                        }
-                    } else {
-                        let calls = Rc::new(Cell::new(0usize));
-                        let c2 = calls.clone();
-                        let site_ref: &str = &site;
-                        let r = nexrad_data::verif::search(shape.n, DateTime::<Utc>::MAX_UTC, move |i| {
-                            c2.set(c2.get() + 1);
-                            async move {
-                                let chunks = list_chunks_in_volume(site_ref, VolumeIndex::new(i + 1), 1).await?;
-                                Ok(chunks.first().and_then(|c| c.date_time()))
+                let rs: Vec<Result<(Option<usize>, usize), String>> = rt.block_on(async {
+                    let one = |ss: SiteShape| async move {
+                        if ss.shape.n == 999 {
+                            match get_latest_volume(&ss.site).await {
+                                Ok(r) => Ok((r.volume.map(|v| v.as_number()), r.calls)),
+                                Err(e) => Err(format!("{:?}", e)),
                             }
-                        })
-                        .await;
-                        match r {
-                            Ok(v) => Ok((v.map(|i| i + 1), calls.get())),
-                            Err(e) => Err(format!("{:?}", e)),
+                        } else {
+                            let calls = Rc::new(Cell::new(0usize));
+                            let c2 = calls.clone();
+                            let site_ref: &str = &ss.site;
+                            let r = nexrad_data::verif::search(ss.shape.n, DateTime::<Utc>::MAX_UTC, move |i| {
+                                c2.set(c2.get() + 1);
+                                async move {
+                                    let chunks = list_chunks_in_volume(site_ref, VolumeIndex::new(i + 1), 1).await?;
+                                    Ok(chunks.first().and_then(|c| c.date_time()))
+                                }
+                            })
+                            .await;
+                            match r {
+                                Ok(v) => Ok((v.map(|i| i + 1), calls.get())),
+                                Err(e) => Err(format!("{:?}", e)),
+                            }
+                        }
+                    };
+                    match sites.len() {
+                        1 => vec![one(sites[0].clone()).await],
+                        2 => {
+                            let (a, b) = tokio::join!(one(sites[0].clone()), one(sites[1].clone()));
+                            vec![a, b]
+                        }
+                        _ => {
+                            let (a, b, c) = tokio::join!(one(sites[0].clone()), one(sites[1].clone()), one(sites[2].clone()));
+                            vec![a, b, c]
                         }
                     }
                 });
                 let w = world.borrow();
-                let listed = w
-                    .core
-                    .log
-                    .iter()
-                    .filter(|r| matches!(r.kind, ReqKind::List { .. }))
-                    .count();
-                (r, listed)
+                rs.into_iter()
+                    .zip(sites.iter())
+                    .map(|(r, ss)| {
+                        let pre = format!("{}/", ss.site);
+                        let listed = w
+                            .core
+                            .log
+                            .iter()
+                            .filter(|q| matches!(&q.kind, ReqKind::List { prefix, .. } if prefix.starts_with(&pre)))
+                            .count();
+                        (r, listed)
+                    })
+                    .collect()
             },
         );
+        let _ = small_n;
 
-        // ---- oracle
-        let locus = format!("n={} p={} c={}", shape.n, shape.p, shape.c);
-        let injected = ctx.counters.get("fault.request_failed").copied().unwrap_or(0);
-        ctx.class.u(shape.n as u64);
-        ctx.class.u(shape.p as u64);
-        ctx.class.u(shape.c as u64);
-        ctx.class.u(injected);
-        ctx.nontrivial = shape.c > 0;
-        match &result {
-            Ok((vol, calls)) => {
-                if *vol != expected {
-                    ctx.violate(
-                        "latest-volume",
-                        if faults { format!("faults {}", locus) } else { locus.clone() },
-                        format!("bucket shape {}: newest populated directory is {:?}, discovery returned {:?} after {} listings ({} faults injected)", locus, expected, vol, listed, injected),
-                    );
-                }
-                if *calls != listed {
-                    ctx.violate(
-                        "call-count-faithful",
-                        locus.clone(),
-                        format!("shape {}: reported {} calls, the endpoint received {} listing requests", locus, calls, listed),
-                    );
-                }
-                let bound = shape.n + 2 * ceil_log2(shape.n) + 4;
-                if *calls > bound {
-                    ctx.violate(
-                        "call-count-bound",
-                        locus.clone(),
-                        format!("shape {}: {} calls exceed N + 2*ceil(log2 N) + 4 = {}", locus, calls, bound),
-                    );
-                }
-                if expected == Some(999) {
-                    ctx.count("newest_is_999");
-                }
-                if shape.c == shape.n {
-                    ctx.count("all_populated");
-                }
-                if shape.c == 0 {
-                    ctx.count("all_empty");
-                }
-                if shape.c > 0 && shape.p < shape.c {
-                    ctx.count("run_wraps_around");
-                }
+        // ---- oracle, per discovery
+        let injected = ctx.counters.get("fault.request_failed").copied().unwrap_or(0) + ctx.counters.get("fault.error_status").copied().unwrap_or(0);
+        if concurrent {
+            ctx.count("concurrent_discoveries");
+        }
+        for ((result, listed), ss) in results.iter().zip(sites.iter()) {
+            let shape = ss.shape;
+            let expected = if shape.c > 0 { Some(shape.p) } else { None };
+            let locus = format!("n={} p={} c={}", shape.n, shape.p, shape.c);
+            ctx.class.u(shape.n as u64);
+            ctx.class.u(shape.p as u64);
+            ctx.class.u(shape.c as u64);
+            ctx.class.u(injected);
+            if shape.c > 0 {
+                ctx.nontrivial = true;
             }
-            Err(e) => {
-                if injected == 0 {
-                    ctx.violate(
-                        "no-spurious-error",
-                        locus.clone(),
-                        format!("shape {}: discovery failed without any injected fault: {}", locus, e),
-                    );
-                } else {
-                    ctx.count("error_after_fault");
+            match result {
+                Ok((vol, calls)) => {
+                    if *vol != expected {
+                        ctx.violate(
+                            "latest-volume",
+                            if faults { format!("faults {}", locus) } else if concurrent { format!("concurrent {}", locus) } else { locus.clone() },
+                            format!("site {} bucket shape {}: newest populated directory is {:?}, discovery returned {:?} after {} listings ({} faults injected, client clock offset {} ms)", ss.site, locus, expected, vol, listed, injected, skew_ms),
+                        );
+                    }
+                    if *calls != *listed {
+                        ctx.violate(
+                            "call-count-faithful",
+                            if concurrent { format!("concurrent {}", locus) } else { locus.clone() },
+                            format!("site {} shape {}: reported {} calls, the endpoint received {} listing requests for this site ({} discoveries ran concurrently)", ss.site, locus, calls, listed, sites.len()),
+                        );
+                    }
+                    let bound = shape.n + 2 * ceil_log2(shape.n) + 4;
+                    if *calls > bound {
+                        ctx.violate(
+                            "call-count-bound",
+                            locus.clone(),
+                            format!("shape {}: {} calls exceed N + 2*ceil(log2 N) + 4 = {}", locus, calls, bound),
+                        );
+                    }
+                    if expected == Some(999) {
+                        ctx.count("newest_is_999");
+                    }
+                    if shape.c == shape.n {
+                        ctx.count("all_populated");
+                    }
+                    if shape.c == 0 {
+                        ctx.count("all_empty");
+                    }
+                    if shape.c > 0 && shape.p < shape.c {
+                        ctx.count("run_wraps_around");
+                    }
+                }
+                Err(e) => {
+                    if injected == 0 {
+                        ctx.violate(
+                            "no-spurious-error",
+                            locus.clone(),
+                            format!("shape {}: discovery failed without any injected fault: {}", locus, e),
+                        );
+                    } else {
+                        ctx.count("error_after_fault");
+                    }
                 }
             }
         }
         if ctx.want_sample && ctx.nontrivial {
-            ctx.sample = Some(json!({"shape": {"n": shape.n, "newest": shape.p, "populated": shape.c},
-                "site": site, "volume_gap_s": gap_s, "faults_injected": injected,
-                "result": format!("{:?}", result), "listing_requests": listed}));
+            ctx.sample = Some(json!({"discoveries": sites.iter().zip(results.iter()).map(|(ss, (r, listed))| json!({
+                "site": ss.site, "shape": {"n": ss.shape.n, "newest": ss.shape.p, "populated": ss.shape.c}, "volume_gap_s": ss.gap_s,
+                "result": format!("{:?}", r), "listing_requests": listed})).collect::<Vec<_>>(),
+                "concurrent": concurrent, "faults_injected": injected, "client_clock_offset_ms": skew_ms}));
         }
     }
 }
